@@ -1,7 +1,7 @@
 (* T04 / CreateFile (Create; Write d; Close) in every state: new name, existing regular file (overwrite), existing
    directory, missing parent.  A successful call leaves, under the name, an entry whose recorded position designates
-   the member that carries exactly the bytes written (the corner T02Counter.v (2), an existing regular file, concerns
-   the modification time only and is covered here). *)
+   the member that carries exactly the bytes written (the corner T02Counter.v (2), nothing written to an existing empty
+   regular file, concerns the modification time only and is covered here). *)
 From Coq Require Import List NArith ZArith Bool Lia.
 From Coq Require Import ZifyN ZifyBool.
 Import ListNotations.
@@ -31,9 +31,9 @@ Lemma end_off s : off_of (c_rs c) (end_rec c s) (end_blk c s) = tape_blocks (tp 
 Proof. unfold end_rec, end_blk. apply pos_of_roundtrip. exact Hrs. Qed.
 
 (* ---------- the flush of a handle on an existing entry *)
-Lemma flush_written s hd bb d0 : Wf hr c s -> hbok s -> good (hd_path hd) -> hd_link hd = [] -> clen bb < 10 ^ 40 ->
+Lemma flush_written s hd bb d0 now : Wf hr c s -> hbok s -> good (hd_path hd) -> hd_link hd = [] -> clen bb < 10 ^ 40 ->
   find_rows (rows (db s)) (hd_path hd) = Some d0 ->
-  exists s', update_op c s [{| f_hdr := flush_hdr hd (clen bb); f_data := bb |}] true true = (s', OOk) /\
+  exists s', update_op c s [{| f_hdr := stamp_mtime (flush_hdr hd (clen bb)) now; f_data := bb |}] true true = (s', OOk) /\
     Wf hr c s' /\ hbok s' /\
     exists v m, (forall x, lookup (abs s') x = if eqb_str x (hd_path hd) then Some v else lookup (abs s) x) /\
       n_tf v = TypeReg /\ n_size v = clen bb /\
@@ -43,15 +43,16 @@ Proof.
   intros HW Hhb G Hk Hlen Hf. pose proof (wf_inv hr c s HW) as HI. pose proof (iv_li hr c s HI) as HL.
   assert (Hrows : Forall rowok (rows (db s))) by apply HL.
   assert (Hnd : NoDup (map r_name (rows (db s)))) by apply HL.
-  destruct (update_content_pos hr c HP Hrs s (flush_hdr hd (clen bb)) bb d0 HI Hhb)
+  set (fh := stamp_mtime (flush_hdr hd (clen bb)) now).
+  destruct (update_content_pos hr c HP Hrs s fh bb d0 HI Hhb)
     as (s2 & m & enc & E2 & HI2 & Hhb2 & Etp & Ehdr & Edata & Edb2).
   { exact G. } { exact Hk. } { reflexivity. } { exact Hlen. } { exact Hf. }
   exists s2. split; [exact E2|].
-  change (h_name (flush_hdr hd (clen bb))) with (hd_path hd) in Edb2.
-  change (h_size (flush_hdr hd (clen bb))) with (clen bb) in Edb2.
+  change (h_name fh) with (hd_path hd) in Edb2.
+  change (h_size fh) with (clen bb) in Edb2.
   set (fr := row_of_hdr (end_rec c s) (end_rec c s) (end_blk c s) (end_blk c s)
-               (with_size_name (content_hdr (flush_hdr hd (clen bb)) enc) (clen bb) (hd_path hd))) in *.
-  assert (Hsz : hsize (content_hdr (flush_hdr hd (clen bb)) enc) = Some (clen bb)).
+               (with_size_name (content_hdr fh enc) (clen bb) (hd_path hd))) in *.
+  assert (Hsz : hsize (content_hdr fh enc) = Some (clen bb)).
   { unfold hsize, content_hdr, upd_pax. cbn [h_pax with_size_name set_pax]. paxs.
     apply undecimal_decimal_eq. exact Hlen. }
   split; [|split; [exact Hhb2|]].
@@ -144,7 +145,7 @@ Proof.
     destruct d as [|p0 dr]; [contradiction|]. remember (p0 :: dr) as d eqn:Ed0. clear Hdne.
     match goal with |- context [flush_hdr ?h _] => set (hd := h) end.
     rewrite coverlay_nil_eq.
-    destruct (flush_written s1 hd d nr HW1 Hhb1) as (s2 & E2 & HW2 & Hhb2 & v & m & Lk & V1 & V2 & V3 & V4 & V5).
+    destruct (flush_written s1 hd d nr (clk s1) HW1 Hhb1) as (s2 & E2 & HW2 & Hhb2 & v & m & Lk & V1 & V2 & V3 & V4 & V5).
     { exact G. } { reflexivity. } { exact Hlen. } { exact Fn1. }
     rewrite E2. eexists s2, _. split; [rewrite Ed0; reflexivity|]. split; [exact HW2|]. split; [exact Hhb2|]. cbn iota.
     split; [reflexivity|]. split; [reflexivity|].
@@ -183,12 +184,12 @@ Proof.
   set (fl := {| fl_read := true; fl_write := true; fl_append := false; fl_trunc := true |}).
   (* flushing a buffer *)
   assert (FLUSH : forall buf bb, bb = d ->
-     exists s', update_op c s [{| f_hdr := flush_hdr {| hd_path := n; hd_link := []; hd_flags := fl; hd_info := hdr_of_row d0; hd_buf := buf |} (clen bb);
+     exists s', update_op c s [{| f_hdr := stamp_mtime (flush_hdr {| hd_path := n; hd_link := []; hd_flags := fl; hd_info := hdr_of_row d0; hd_buf := buf |} (clen bb)) (clk s);
                                       f_data := bb |}] true true = (s', OOk) /\ Wf hr c s' /\ hbok s' /\
        ((d = [] /\ r_size d0 = 0 /\ ns_eq (abs s') (abs s)) \/ written s s' n d)).
   { intros buf bb Hbb. subst bb.
     set (hd := {| hd_path := n; hd_link := []; hd_flags := fl; hd_info := hdr_of_row d0; hd_buf := buf |}).
-    destruct (flush_written s hd d d0 HW Hhb) as (s2 & E2 & HW2 & Hhb2 & v & m & Lk & V1 & V2 & V3 & V4 & V5).
+    destruct (flush_written s hd d d0 (clk s) HW Hhb) as (s2 & E2 & HW2 & Hhb2 & v & m & Lk & V1 & V2 & V3 & V4 & V5).
     { exact G. } { reflexivity. } { exact Hlen. } { exact En. }
     exists s2. split; [exact E2|]. split; [exact HW2|]. split; [exact Hhb2|]. right.
     exists v, m. split; [|exact (conj V1 (conj V2 (conj V3 (conj V4 V5))))].
